@@ -3,8 +3,8 @@ import Hms.Value.Val
 # The dynamic-to-static cast (`DeepCast` / `deepCastRecursive`), post-fix
 
 `castAll allow T v path` mirrors `runtime/value/cast.go` and `interpreter/value/cast.go` after
-X1 (a value wrapped into `?T` is itself cast to `T`, `null` becomes `none`), X15 (interpreter:
-`any`, any-object, object → any-object) and X16 (path components keep their kind).
+X1 (a value wrapped into `?T` is itself cast to `T`, `null` becomes `none`), X21 (interpreter:
+`any`, any-object, object → any-object) and X22 (path components keep their kind).
 
 Go iterates the fields of an object *value* in map order and returns the first failure it meets,
 so which of several offending fields is reported is not a function of the input. The model
